@@ -51,6 +51,7 @@ func registerIntrinsics(e *Engine) {
 				r.nondet = append(r.nondet, NondetRec{Kind: kind, Term: t})
 				if kind == "nat" {
 					r.addPC(r.ctx.ILe(r.ctx.IntI(0), t))
+					r.nonNeg[t.id] = true
 				}
 			}
 			return r.newBig(t)
@@ -58,6 +59,32 @@ func registerIntrinsics(e *Engine) {
 	}
 	simple(rt+"NondetNat", natOrInt("nat"))
 	simple(rt+"NondetInt", natOrInt("int"))
+	simple(rt+"NondetBigExact", func(r *Run, args []Value) Value {
+		n := int(r.concreteInt(args[0], "NondetBigExact length"))
+		var t *Term
+		if r.vector != nil {
+			t = r.ctx.Int(r.nextVec("nat"))
+			lo, hi := new(big.Int), pow256(n)
+			if n > 0 {
+				lo = pow256(n - 1)
+			}
+			if n == 0 && t.CI.Sign() != 0 || n > 0 && (t.CI.Cmp(lo) < 0 || t.CI.Cmp(hi) >= 0) {
+				panic(pathEnd{"assume-false"})
+			}
+		} else {
+			t = r.ctx.Var(fmt.Sprintf("n%d_nat", len(r.nondet)), sortInt)
+			r.nondet = append(r.nondet, NondetRec{Kind: "nat", Term: t})
+			if n == 0 {
+				r.addPC(r.ctx.Eq(t, r.ctx.IntI(0)))
+			} else {
+				r.addPC(r.ctx.ILe(r.ctx.Int(pow256(n-1)), t))
+				r.addPC(r.ctx.ILt(t, r.ctx.Int(pow256(n))))
+			}
+			r.bigLens[t.id] = n
+			r.nonNeg[t.id] = true
+		}
+		return r.newBig(t)
+	})
 	simple(rt+"Choice", func(r *Run, args []Value) Value {
 		n := r.concreteInt(args[0], "Choice arity")
 		if n <= 0 {
@@ -106,6 +133,9 @@ func registerIntrinsics(e *Engine) {
 			return nil
 		}
 		r.violation(label, "assert", "", c)
+		if r.vector != nil {
+			return nil // concrete run: continue like the native harness does
+		}
 		if c.IsConst() {
 			panic(pathEnd{"assert-false"})
 		}
@@ -145,6 +175,13 @@ func registerIntrinsics(e *Engine) {
 		}
 		r.res.Observes = append(r.res.Observes, ObsRec{label, vals})
 		return nil
+	})
+	simple(rt+"Bound", func(r *Run, args []Value) Value {
+		name := r.mustStr(args[0])
+		if v, ok := r.eng.bounds[name]; ok {
+			return r.intTerm(int64(v))
+		}
+		return args[1]
 	})
 	simple(rt+"Note", func(r *Run, args []Value) Value {
 		if s, ok := r.strConcrete(args[0].(*StrV)); ok {
@@ -344,6 +381,7 @@ func (r *Run) bigFromBytes(bs []*Term) *Term {
 		}
 		sum = c.IAdd(sum, c.IMul(c.BV2Nat(b), c.Int(pow256(n-1-i))))
 	}
+	r.nonNeg[sum.id] = true
 	if !allConst {
 		if r.bytesOfBig == nil {
 			r.bytesOfBig = map[int][]*Term{}
@@ -358,7 +396,9 @@ func (r *Run) iabs(t *Term) *Term {
 	if t.IsConst() {
 		return c.Int(new(big.Int).Abs(t.CI))
 	}
-	// known non-negative? cheap syntactic check is not available; use ite
+	if r.nonNeg[t.id] {
+		return t
+	}
 	return c.Ite(c.ILt(t, c.IntI(0)), c.INeg(t), t)
 }
 
